@@ -7,7 +7,11 @@ package main
 
 import (
 	"bytes"
+	"compress/gzip"
+	"crypto/sha256"
 	"fmt"
+	"google.golang.org/protobuf/types/descriptorpb"
+	"io"
 	"os"
 	"reflect"
 	"runtime"
@@ -319,6 +323,29 @@ func (c *concCtx) ops(mi *msgInfo, v *V) []concOp {
 			b = append(b, sentinelBytes()...)
 			first := append([]byte{}, b...)
 			return canonBytes(enc) + " " + kept("MarshalAppend(nil, m) + append", b, first)
+		}},
+		{"legacy-descriptor", func(m, _ proto.Message) string {
+			// the deprecated raw-descriptor accessor and the descriptor / type reads every client makes first: read-only too
+			// (the gzip of the raw descriptor is made lazily on the first call: a reader must never see it half-made)
+			var sb strings.Builder
+			if ld, ok := m.(interface{ Descriptor() ([]byte, []int) }); ok {
+				gz, path := ld.Descriptor()
+				sum := sha256.Sum256(gz)
+				zr, err := gzip.NewReader(bytes.NewReader(gz))
+				n := -1
+				if err == nil {
+					if raw, err := io.ReadAll(zr); err == nil {
+						fdp := &descriptorpb.FileDescriptorProto{}
+						if proto.Unmarshal(raw, fdp) == nil && fdp.GetName() == m.ProtoReflect().Descriptor().ParentFile().Path() {
+							n = len(raw)
+						}
+					}
+				}
+				fmt.Fprintf(&sb, "gz=%x raw=%d path=%v ", sum[:8], n, path)
+			}
+			r := m.ProtoReflect()
+			fmt.Fprintf(&sb, "name=%s type=%s new=%T", r.Descriptor().FullName(), r.Type().Descriptor().FullName(), r.Type().New().Interface())
+			return sb.String()
 		}},
 		{"equal", func(m, priv proto.Message) string { return tf(proto.Equal(m, priv)) + tf(proto.Equal(priv, m)) }},
 		{"clone", func(m, _ proto.Message) string { return detBytes(proto.Clone(m)) }},
